@@ -326,12 +326,17 @@ type world struct {
 	addrPool []common.Address
 	topPool  []common.Hash
 	allLogs  []*types.Log
-	nLogs    int
+	blocks   []*types.Block // canonical, by number
+	emitters []common.Address
+	sender   common.Address
+	sign     func(nonce uint64, to common.Address) *types.Transaction
+	rng      *vh.RNG
+	loaded   int // blocks the model currently holds that agree with w.headers
 }
 
 func (w *world) head() uint64 { return uint64(len(w.headers) - 1) }
 
-func buildWorld(c *vh.Ctx, m *vh.Model, n int, density int) *world {
+func buildWorld(c *vh.Ctx, m *vh.Model, n int, density int, gap func(bn uint64) bool) *world {
 	r := c.Rng.Fork()
 	w := &world{c: c, m: m, db: aquadb.NewMemDatabase()}
 	key, _ := crypto.HexToBtcec("b71c71a67e1177ad4e901695e1b4b9ee17ae16c6668d313eac2f96dbcda3f291")
@@ -374,69 +379,124 @@ func buildWorld(c *vh.Ctx, m *vh.Model, n int, density int) *world {
 	}
 	gspec := &core.Genesis{Config: cfg, Alloc: alloc, GasLimit: 8000000, Difficulty: big.NewInt(1)}
 	genesis := gspec.MustCommit(w.db)
-	var genErr interface{}
+	w.emitters, w.rng = emitters, r
+	w.sign = func(nonce uint64, to common.Address) *types.Transaction {
+		tx, err := types.SignTx(types.NewTransaction(nonce, to, new(big.Int), 400000, big.NewInt(1), nil), types.HomesteadSigner{}, key)
+		if err != nil {
+			panic(err)
+		}
+		return tx
+	}
+	w.sender = sender
+	blocks := w.generate(genesis, n, func(bn uint64) int {
+		switch {
+		case bn <= uint64(2*len(emitters)):
+			return int(bn-1)%len(emitters) + 1 // the first blocks call every emitter once, alone in its block (nothing masks its bloom bits)
+		case (n < 1000 && (bn%64 == 63 || bn%64 == 0 || bn%64 == 1)) || (bn >= 2044 && bn <= 2052) || (bn >= 4092 && bn <= 4100) || bn+2 >= uint64(n):
+			return -1 // logs on both sides of every 64-block (hence 8/2048/4096-block) section boundary and at the head
+		case gap != nil && gap(bn):
+			return 0
+		case r.Intn(100) < density:
+			return -1
+		}
+		return 0
+	})
+	w.setCanonical(append([]*types.Block{genesis}, blocks...))
+	return w
+}
+
+// generate n blocks on top of parent and store them (blocks + receipts) without touching the canonical
+// mapping. what(bn): 0 = empty block, -1 = 1..3 random emitter calls, k>0 = exactly one call of emitter k-1
+func (w *world) generate(parent *types.Block, n int, what func(bn uint64) int) []*types.Block {
 	var blocks []*types.Block
 	var receipts []types.Receipts
-	_, genErr = vh.CatchPanic(func() {
-		blocks, receipts = core.GenerateChain(context.TODO(), cfg, genesis, aquahash.NewFaker(), w.db, n, func(i int, gen *core.BlockGen) {
+	r := w.rng
+	_, genErr := vh.CatchPanic(func() {
+		blocks, receipts = core.GenerateChain(context.TODO(), cfg, parent, aquahash.NewFaker(), w.db, n, func(i int, gen *core.BlockGen) {
 			gen.SetVersion(cfg.GetBlockVersion(gen.Number()))
-			ntx := 1 + r.Intn(3)
-			if i < 2*len(emitters) {
-				ntx = 1 // the first blocks call every emitter once, alone in its block (nothing masks its bloom bits)
-			} else if bn := i + 1; bn%64 == 63 || bn%64 == 0 || bn%64 == 1 || (bn >= 2040 && bn <= 2056) || bn >= n-2 {
-				// logs on both sides of every 64-block (hence 8-block and 2048-block) section boundary and at the head
-			} else if r.Intn(100) >= density {
+			k := what(gen.Number().Uint64())
+			if k == 0 {
 				return
 			}
+			ntx := 1
+			if k < 0 {
+				ntx = 1 + r.Intn(3)
+			}
 			for t := 0; t < ntx; t++ {
-				to := emitters[r.Intn(len(emitters))]
-				if i < 2*len(emitters) {
-					to = emitters[i%len(emitters)]
+				to := w.emitters[r.Intn(len(w.emitters))]
+				if k > 0 {
+					to = w.emitters[k-1]
 				}
-				tx, err := types.SignTx(types.NewTransaction(gen.TxNonce(sender), to, new(big.Int), 400000, big.NewInt(1), nil), types.HomesteadSigner{}, key)
-				if err != nil {
-					panic(err)
-				}
-				gen.AddTx(tx)
+				gen.AddTx(w.sign(gen.TxNonce(w.sender), to))
 			}
 		})
 	})
 	if genErr != nil {
-		c.Fatal("GenerateChain: %v", genErr)
+		w.c.Fatal("GenerateChain: %v", genErr)
 	}
 	for i, b := range blocks {
 		if err := core.WriteBlock(w.db, b); err != nil {
-			c.Fatal("WriteBlock: %v", err)
+			w.c.Fatal("WriteBlock: %v", err)
 		}
-		core.WriteCanonicalHash(w.db, b.Hash(), b.NumberU64())
-		core.WriteHeadBlockHash(w.db, b.Hash())
-		core.WriteHeadHeaderHash(w.db, b.Hash())
 		if err := core.WriteBlockReceipts(w.db, b.Hash(), b.NumberU64(), receipts[i]); err != nil {
-			c.Fatal("WriteBlockReceipts: %v", err)
+			w.c.Fatal("WriteBlockReceipts: %v", err)
 		}
 	}
-	// read everything back through the database, as the filter backend does
-	for num := uint64(0); num <= uint64(n); num++ {
+	return blocks
+}
+
+// setCanonical makes `chain` (index = block number, chain[0] = genesis) the canonical chain the way
+// BlockChain.insert/reorg leave the database: number->hash for every block, stale numbers above the
+// new head deleted, head pointers moved; then reads everything back through the database, as the
+// filter backend does.  Returns the number of the first block that changed.
+func (w *world) setCanonical(chain []*types.Block) uint64 {
+	first := uint64(len(chain))
+	for num, b := range chain {
+		if num < len(w.blocks) && w.blocks[num].Hash() == b.Hash() {
+			continue
+		}
+		if uint64(num) < first {
+			first = uint64(num)
+		}
+		core.WriteCanonicalHash(w.db, b.Hash(), uint64(num))
+	}
+	for num := len(chain); num < len(w.blocks); num++ {
+		core.DeleteCanonicalHash(w.db, uint64(num))
+		if uint64(len(chain)) < first {
+			first = uint64(len(chain))
+		}
+	}
+	headHash := chain[len(chain)-1].Hash()
+	core.WriteHeadBlockHash(w.db, headHash)
+	core.WriteHeadHeaderHash(w.db, headHash)
+	w.blocks = append([]*types.Block(nil), chain...)
+	if first > uint64(len(w.headers)) {
+		first = uint64(len(w.headers))
+	}
+	w.headers, w.blooms, w.receipts = w.headers[:first], w.blooms[:first], w.receipts[:first]
+	for num := first; num < uint64(len(chain)); num++ {
 		h := w.headerByNumber(num)
-		if h == nil {
-			c.Fatal("header %d missing after write", num)
+		if h == nil || h.Hash() != chain[num].Hash() {
+			w.c.Fatal("canonical header %d missing or wrong after write", num)
 		}
 		w.headers = append(w.headers, h)
 		w.blooms = append(w.blooms, h.Bloom)
-		rs := core.GetBlockReceipts(w.db, h.Hash(), num)
-		w.receipts = append(w.receipts, rs)
+		w.receipts = append(w.receipts, core.GetBlockReceipts(w.db, h.Hash(), num))
+	}
+	w.allLogs = w.allLogs[:0]
+	for num, rs := range w.receipts {
 		idx := uint(0)
 		for _, rc := range rs {
 			for _, l := range rc.Logs {
-				if l.BlockNumber != num || l.Index != idx {
-					c.Fatal("log identity fields: block %d index %d has BlockNumber=%d Index=%d", num, idx, l.BlockNumber, l.Index)
+				if l.BlockNumber != uint64(num) || l.Index != idx {
+					w.c.Fatal("log identity fields: block %d index %d has BlockNumber=%d Index=%d", num, idx, l.BlockNumber, l.Index)
 				}
 				idx++
 				w.allLogs = append(w.allLogs, l)
 			}
 		}
 	}
-	return w
+	return first
 }
 
 func (w *world) headerByNumber(num uint64) *types.Header {
@@ -454,16 +514,25 @@ func (w *world) headerByNumber(num uint64) *types.Header {
 // load the chain into the model; per block compare header bloom with create_bloom of its receipts,
 // and run the no-false-negative oracle on the implementation's own blooms
 func (w *world) loadModel() {
+	w.loadModelFrom(0)
+}
+
+// loadModelFrom keeps the model's first `keep` blocks and (re)loads the rest of the canonical chain
+func (w *world) loadModelFrom(keep int) {
 	c, m := w.c, w.m
-	if a := m.Ask("reset"); a != "ok" {
-		c.Fatal("model reset: %s", a)
+	if a := m.Ask(fmt.Sprintf("truncate %d", keep)); a != "ok" {
+		c.Fatal("model truncate: %s", a)
 	}
 	lines := make([]string, len(w.headers))
-	for n := range w.headers {
+	for n := keep; n < len(w.headers); n++ {
 		lines[n] = "block " + vh.Hex(w.blooms[n][:]) + " " + receiptsTok(w.receipts[n], uint64(n)<<16)
 	}
-	ans := m.AskAll(lines)
-	for n := range w.headers {
+	ans := make([]string, len(w.headers))
+	copy(ans[keep:], m.AskAll(lines[keep:]))
+	if l := m.Ask("len"); l != fmt.Sprint(len(w.headers)) {
+		c.Fatal("model chain length %s, want %d", l, len(w.headers))
+	}
+	for n := keep; n < len(w.headers); n++ {
 		nl := 0
 		for _, rc := range w.receipts[n] {
 			nl += len(rc.Logs)
@@ -523,6 +592,13 @@ type backend struct {
 	counter  uint32
 	mux      *event.TypeMux
 	feed     event.Feed
+	node     *aqua.VerifBloomNode // if set: BloomStatus and ServiceFilter are the production ones (AquaApiBackend + startBloomHandlers)
+}
+
+func (b *backend) refresh() {
+	if b.node != nil {
+		b.size, b.sections = b.node.BloomStatus()
+	}
 }
 
 func (b *backend) ChainDb() aquadb.Database                            { return b.w.db }
@@ -534,7 +610,12 @@ func (b *backend) SubscribeRemovedLogsEvent(ch chan<- core.RemovedLogsEvent) eve
 	return b.feed.Subscribe(ch)
 }
 func (b *backend) SubscribeLogsEvent(ch chan<- []*types.Log) event.Subscription { return b.feed.Subscribe(ch) }
-func (b *backend) BloomStatus() (uint64, uint64)                                { return b.size, b.sections }
+func (b *backend) BloomStatus() (uint64, uint64) {
+	if b.node != nil {
+		return b.node.BloomStatus()
+	}
+	return b.size, b.sections
+}
 
 func (b *backend) HeaderByNumber(ctx context.Context, nr rpc.BlockNumber) (*types.Header, error) {
 	if nr == rpc.LatestBlockNumber {
@@ -562,6 +643,10 @@ func (b *backend) GetLogs(ctx context.Context, hash common.Hash) ([][]*types.Log
 
 // as aqua/api_backend.go ServiceFilter + aqua/bloombits.go startBloomHandlers
 func (b *backend) ServiceFilter(ctx context.Context, session *bloombits.MatcherSession) {
+	if b.node != nil {
+		b.node.ServiceFilter(ctx, session)
+		return
+	}
 	requests := make(chan chan *bloombits.Retrieval)
 	for i := 0; i < b.threads; i++ {
 		go session.Multiplex(b.batch, 0, requests)
@@ -871,6 +956,7 @@ func (w *world) brute(b, e int64, cr criteria) []uint64 {
 
 func (w *world) runQuery(bk *backend, b, e int64, cr criteria, rangeCls string) {
 	c, m := w.c, w.m
+	bk.refresh()
 	ctx, cancel := context.WithTimeout(context.Background(), 20*time.Second)
 	defer cancel()
 	var got []uint64
@@ -929,7 +1015,9 @@ func (w *world) runQuery(bk *backend, b, e int64, cr criteria, rangeCls string) 
 			kind = "missing"
 		}
 		violate(c, "logs-query-inexact/"+kind+"/"+cas, "Filter.Logs differs from the brute-force scan of the canonical receipts",
-			map[string]string{"case": cas, "filter": obs, "bruteforce": tagsTok(want)})
+			map[string]string{"case": cas, "filter": obs, "bruteforce": tagsTok(want), "step": rangeCls,
+				"canonical_head": fmt.Sprintf("%d %s", w.head(), w.headers[w.head()].Hash().Hex()),
+				"how": "c16 -seed <seed of this run>; `step` names the point of the generated history (reorg-history steps: h<k>-<state>) at which this query was asked"})
 	}
 	if obs == "err" {
 		violate(c, "logs-query-error/"+cas, "Filter.Logs returned an error on a healthy backend", map[string]string{"case": cas})
@@ -1044,9 +1132,60 @@ type fakeChain struct {
 	feed event.Feed
 }
 
-func (f *fakeChain) CurrentHeader() *types.Header { return f.w.headers[len(f.w.headers)-1] }
+func (f *fakeChain) CurrentHeader() *types.Header { return types.CopyHeader(f.w.headers[len(f.w.headers)-1]) }
 func (f *fakeChain) SubscribeChainEvent(ch chan<- core.ChainEvent) event.Subscription {
 	return f.feed.Subscribe(ch)
+}
+
+// switchCanonical makes `chain` canonical in the database (as a reorg / import leaves it) and posts the
+// ChainEvents of the newly canonical blocks to the indexer, then brings the model's chain up to date
+func (w *world) switchCanonical(chain []*types.Block, fc *fakeChain) {
+	first := w.setCanonical(chain)
+	if fc != nil {
+		for num := first; num < uint64(len(chain)); num++ {
+			fc.feed.Send(core.ChainEvent{Block: chain[num], Hash: chain[num].Hash()})
+		}
+	}
+	w.loadModelFrom(int(first))
+}
+
+// waitIndexed polls the indexer until it reports `expect` stored sections whose last section head is the
+// canonical block it should be (so a re-index after a reorg has really happened)
+func (w *world) waitIndexed(ix *core.ChainIndexer, size, expect uint64) uint64 {
+	deadline := time.Now().Add(10 * time.Second)
+	var stored uint64
+	for time.Now().Before(deadline) {
+		var head common.Hash
+		stored, _, head = ix.Sections()
+		if stored == expect && (expect == 0 || head == core.GetCanonicalHash(w.db, expect*size-1)) {
+			time.Sleep(150 * time.Millisecond) // nothing further may follow
+			stored, _, _ = ix.Sections()
+			if stored == expect {
+				return stored
+			}
+		}
+		time.Sleep(10 * time.Millisecond)
+	}
+	return stored
+}
+
+// the queries repeated at every step of a reorg history: they touch the replaced blocks, the blocks
+// before the fork point, old and new sections and the unindexed tail; the same bits every time
+func (w *world) historyQueries(bk *backend, label string, forkAt int64) {
+	E := w.emitters
+	secEnd := (forkAt/4096 + 1) * 4096
+	for i := 0; i < 11; i++ {
+		w.runQuery(bk, forkAt-60, -1, criteria{addrs: []common.Address{E[i]}}, label+"/addr")
+		if i < 4 {
+			w.runQuery(bk, forkAt-100, forkAt+300, criteria{tops: [][]common.Hash{{lpad(E[i])}}}, label+"/topic@0")
+		}
+	}
+	w.runQuery(bk, 0, -1, criteria{addrs: []common.Address{E[2], E[0]}}, label+"/whole-chain")
+	w.runQuery(bk, 0, -1, criteria{tops: [][]common.Hash{nil, {lpad(E[2]), lpad(E[0])}}}, label+"/whole-chain")
+	w.runQuery(bk, forkAt-5, forkAt+5, criteria{}, label+"/around-fork")
+	w.runQuery(bk, secEnd-96, secEnd+14, criteria{}, label+"/around-section-end")
+	w.runQuery(bk, secEnd-2056, secEnd+4, criteria{addrs: []common.Address{E[5], E[6]}}, label+"/old+new-sections")
+	w.runQuery(bk, forkAt+1, forkAt+190, criteria{addrs: []common.Address{E[4], E[7]}, tops: [][]common.Hash{nil}}, label+"/replaced-blocks")
 }
 
 // runs the production indexer over the chain and returns the number of stored sections once it is stable
@@ -1414,6 +1553,98 @@ func min(a, b int) int {
 	return b
 }
 
+// ---------------------------------------------------------------- reorg histories
+
+// Histories over one database and long-lived service objects: index + query on fork A, make fork B
+// canonical (it replaces blocks forkAt+1.. inside already indexed sections), let the ChainIndexer roll
+// back and re-index, query the same bits again; compare every answer with the model and with brute force
+// over the now-canonical receipts.
+func reorgHistories(c *vh.Ctx, m *vh.Model, w *world, forkAt int, withH1 bool, stage func(string)) {
+	secEnd := (forkAt/4096 + 1) * 4096
+	chainA := append([]*types.Block(nil), w.blocks...)
+	headA := len(chainA) - 1
+	// fork B: dense logs exactly where fork A has none, 6 blocks longer than A
+	forkB := w.generate(chainA[forkAt], headA-forkAt+6, func(bn uint64) int {
+		if bn <= uint64(secEnd)+4 || bn%5 == 0 {
+			return -1
+		}
+		return 0
+	})
+	chainB := append(append([]*types.Block(nil), chainA[:forkAt+1]...), forkB...)
+	chainBshort := chainB[:secEnd+205] // e.g. head 4300: the section ending at 4095 is no longer confirmed (256 confirmations)
+	// the model's full indexer run (process_section of every confirmed section) once per size; afterwards
+	// known_sections, which stored_sections equals for section sizes >= 2048 (C16_process_section_ok_partial)
+	askedStored := map[uint64]bool{}
+	stored := func(size uint64) uint64 {
+		var n uint64
+		cmd := "known"
+		if !askedStored[size] {
+			askedStored[size], cmd = true, "stored"
+		}
+		fmt.Sscan(m.Ask(fmt.Sprintf("%s %d 256", cmd, size)), &n)
+		return n
+	}
+	step := func(ix *core.ChainIndexer, size uint64, label string) uint64 {
+		want := stored(size)
+		got := w.waitIndexed(ix, size, want)
+		c.Eval(fmt.Sprintf("reorg-history/%s/size=%d/sections=%d", label, size, got), fmt.Sprintf("%s-%d", label, size))
+		c.Correspond("ChainIndexer+BloomIndexer stored sections after reorg~stored_sections", fmt.Sprintf("%s: stored %d 256 on %d blocks", label, size, len(w.headers)), fmt.Sprint(got), fmt.Sprint(want))
+		return got
+	}
+	resetIndex := func() { aquadb.NewTable(w.db, string(core.BloomBitsIndexPrefix)).Delete([]byte("count")) }
+
+	// history 2: the production bloom node (NewBloomIndexer at params.BloomBitsBlocks, startBloomHandlers,
+	// AquaApiBackend.BloomStatus/ServiceFilter), one long-lived instance through the whole history
+	{
+		resetIndex()
+		node := aqua.VerifNewBloomNode(cfg, w.db)
+		fc := &fakeChain{w: w}
+		node.Indexer().Start(fc)
+		bk := &backend{w: w, node: node, mux: new(event.TypeMux)}
+		size, _ := node.BloomStatus()
+		step(node.Indexer(), size, "h2-forkA")
+		w.historyQueries(bk, "h2-forkA", int64(forkAt))
+		w.switchCanonical(chainBshort, fc) // deep reorg; the index is rolled back and cannot be rebuilt yet
+		step(node.Indexer(), size, "h2-forkB-unconfirmed")
+		w.historyQueries(bk, "h2-forkB-unconfirmed", int64(forkAt))
+		w.switchCanonical(chainB, fc) // fork B grows: section 0 is confirmed again and re-indexed
+		step(node.Indexer(), size, "h2-forkB-reindexed")
+		w.historyQueries(bk, "h2-forkB-reindexed", int64(forkAt))
+		if c.Thorough() {
+			w.switchCanonical(chainA, fc) // a second deep reorg over the same section, caches warm with fork B's vectors
+			step(node.Indexer(), size, "h2-back-to-A")
+			w.historyQueries(bk, "h2-back-to-A", int64(forkAt))
+			w.switchCanonical(chainB, fc)
+			step(node.Indexer(), size, "h2-again-B")
+			w.historyQueries(bk, "h2-again-B", int64(forkAt))
+		}
+		node.Stop()
+		stage("reorg history 2 (production node, size 4096)")
+	}
+	// history 1 (continues on the same database, fork B canonical): section size 2048 (two sections; the reorg
+	// back to fork A replaces the end of section 1, section 0 stays),
+	// rows served from the database by the harness backend
+	if withH1 {
+		resetIndex()
+		ix := aqua.NewBloomIndexer(cfg, w.db, 2048)
+		fc := &fakeChain{w: w}
+		ix.Start(fc)
+		bk := &backend{w: w, size: 2048, rows: w.dbRows(2048), threads: 3, batch: 16, mux: new(event.TypeMux)}
+		bk.sections = step(ix, 2048, "h1-forkB")
+		w.historyQueries(bk, "h1-forkB", int64(forkAt))
+		w.switchCanonical(chainA, fc)
+		bk.sections = step(ix, 2048, "h1-forkA")
+		w.historyQueries(bk, "h1-forkA", int64(forkAt))
+		if c.Thorough() {
+			w.switchCanonical(chainB, fc) // and back: a second reorg over the same sections
+			bk.sections = step(ix, 2048, "h1-back-to-B")
+			w.historyQueries(bk, "h1-back-to-B", int64(forkAt))
+		}
+		ix.Close()
+		stage("reorg history 1 (size 2048)")
+	}
+}
+
 // ---------------------------------------------------------------- main
 
 func main() {
@@ -1434,7 +1665,7 @@ func main() {
 	stage("generator-level")
 
 	// ---- short chain: sizes 8 and 64, harness-built index, every progress state
-	short := buildWorld(c, m, c.Scale(303, 703), 30) // 304 / 704 blocks with genesis: a whole number of 8- and 64-block sections
+	short := buildWorld(c, m, c.Scale(303, 703), 30, nil) // 304 / 704 blocks with genesis: a whole number of 8- and 64-block sections
 	short.loadModel()
 	stage("short chain build+load")
 	c.Note("short chain: %d blocks, %d logs", len(short.headers), len(short.allLogs))
@@ -1530,16 +1761,15 @@ func main() {
 		stage(fmt.Sprintf("short chain size %d", size))
 	}
 
-	// ---- the production indexer: which section sizes can it index at all
+	// ---- the production indexer: which section sizes can it index at all.  The long chain is fork A of the
+	// reorg histories below: no transactions in the blocks after the fork point that fork B will fill
+	const forkAt = 3900
 	sizes := []uint64{8, 64, 2048}
-	longLen := 2048 + 256 + 40
-	if c.Thorough() {
-		sizes = append(sizes, 4096)
-		longLen = 4096 + 256 + 40
-	}
-	long := buildWorld(c, m, longLen, 6)
+	longLen := 4096 + 256 + 8
+	long := buildWorld(c, m, longLen, 6, func(bn uint64) bool { return bn > forkAt && bn < 4088 })
+	stage("long chain build")
 	long.loadModel()
-	stage("long chain build+load")
+	stage("long chain load")
 	c.Note("long chain: %d blocks, %d logs", len(long.headers), len(long.allLogs))
 	for _, size := range sizes {
 		known := m.Ask(fmt.Sprintf("known %d 256", size))
@@ -1610,11 +1840,21 @@ func main() {
 		}
 		stage(fmt.Sprintf("long chain size %d", size))
 	}
+	reorgHistories(c, m, long, forkAt, true, stage)
+	if c.Thorough() {
+		// two sections of 4096: the fork replaces the end of section 1 only, so the rollback is partial
+		// (valid sections 2 -> 1 -> 2) and queries span the old section 0, the re-indexed section 1 and the tail
+		const forkAt2 = 8000
+		long2 := buildWorld(c, m, 2*4096+256+8, 4, func(bn uint64) bool { return bn > forkAt2 && bn < 8184 })
+		long2.loadModel()
+		stage("second long chain build+load")
+		reorgHistories(c, m, long2, forkAt2, false, stage)
+	}
 	if len(short.allLogs) > 0 {
 		l := short.allLogs[0]
 		c.Sample(map[string]string{"log": logTok(l, tagOf(l)), "header_bloom": vh.Hex(short.blooms[l.BlockNumber][:])})
 	}
-	c.Assume("the filter backend serves the canonical chain it was built from (no reorg during a query); BloomStatus sections*size <= head+1")
+	c.Assume("no reorg while a single query is running (reorgs between queries are covered by the histories); BloomStatus sections*size <= head+1")
 	c.Assume("begin and end are >= -1 (rpc aliases pending/earliest as raw negative numbers are backend specific)")
 	c.Finish()
 }
